@@ -33,7 +33,7 @@ class Unsupported(Exception):
     pass
 
 
-IDENT = re.compile(r"^[A-Za-z0-9_:.\-{}/#+ ]*$")
+IDENT = re.compile(r"^[A-Za-z0-9_:.\-{}/#+ <>()\[\]]*$")
 
 
 def q(s):
@@ -74,6 +74,10 @@ def trace_registrations():
 # ------------------------------------------------------------------ 2. constructor analysis
 
 POS_GUARDS = ("GNone", "GTruthy", "GNotNone")
+
+
+def positive(g):
+    return g in POS_GUARDS or g.startswith("GGe:")
 
 
 def names_loaded(node):
@@ -119,8 +123,20 @@ def guard_for(arg, guards):
                   and is_none(c.comparators[0]) and isinstance(c.ops[0], (ast.Is, ast.IsNot))):
                 notnone = isinstance(c.ops[0], ast.IsNot) == p
                 kinds.append("GNotNone" if notnone else "GIsNone")
+            elif (isinstance(c, ast.Compare) and isinstance(c.left, ast.Name) and c.left.id == arg and len(c.ops) == 1 and p
+                  and isinstance(c.ops[0], (ast.Gt, ast.GtE)) and isinstance(c.comparators[0], ast.Constant)
+                  and type(c.comparators[0].value) is int):
+                kinds.append("GGe:%d" % (c.comparators[0].value + (1 if isinstance(c.ops[0], ast.Gt) else 0)))
             else:
                 kinds.append("GOther")
+    bounds = [int(k[4:]) for k in kinds if k.startswith("GGe:")]
+    if bounds and all(k.startswith("GGe:") or k in ("GTruthy", "GNotNone") for k in kinds):
+        # `x and x >= 2`, `x is not None and x >= 0`: an int not below the bound (truthiness adds `!= 0`)
+        n = max(bounds)
+        if "GTruthy" in kinds and n <= 0:
+            return "GOther", other
+        return "GGe:%d" % n, other
+    kinds = ["GOther" if k.startswith("GGe:") else k for k in kinds]
     ks = set(kinds)
     if not ks:
         g = "GNone"
@@ -159,6 +175,7 @@ class InitScan:
         self.tests = {a: 0 for a in argnames}
         self.super_calls = 0
         self.forwards = {}    # parameter -> keyword under which it is handed to the parent constructor through **kwargs
+        self.helpers = {a: [] for a in argnames}   # parameter -> [(method, key, guards)]: handed unchanged to self.method(...) / kwargs[key]
         body = fn.body
         if body and isinstance(body[0], ast.Expr) and isinstance(body[0].value, ast.Constant) and isinstance(body[0].value.value, str):
             body = body[1:]
@@ -168,6 +185,23 @@ class InitScan:
         for n in names_loaded(node):
             if n in self.other:
                 self.other[n] += 1
+
+    def helper_call(self, c, guards):
+        """self.method(a, k=b): every argument that is a bare parameter is a hand-over to that method"""
+        if not (isinstance(c, ast.Call) and isinstance(c.func, ast.Attribute) and isinstance(c.func.value, ast.Name)
+                and c.func.value.id == "self"):
+            return False
+        for i, v in enumerate(c.args):
+            if isinstance(v, ast.Name) and v.id in self.helpers:
+                self.helpers[v.id].append((c.func.attr, "#%d" % i, list(guards)))
+            else:
+                self.count_other(v)
+        for kw in c.keywords:
+            if kw.arg is not None and isinstance(kw.value, ast.Name) and kw.value.id in self.helpers:
+                self.helpers[kw.value.id].append((c.func.attr, kw.arg, list(guards)))
+            else:
+                self.count_other(kw.value)
+        return True
 
     def walk(self, stmts, guards):
         for s in stmts:
@@ -195,12 +229,17 @@ class InitScan:
                 elif isinstance(t, ast.Name):
                     if t.id in self.other:
                         self.reassign.append((t.id, value, list(guards)))
-                        # loads of OTHER arguments in the new value are uses of those
-                        for n in names_loaded(value):
-                            if n in self.other and n != t.id:
-                                self.other[n] += 1
-                    else:
+                        # loads of OTHER arguments in the new value are uses of those (hand-overs to a method are recorded as such)
+                        if not self.helper_call(value, guards):
+                            for n in names_loaded(value):
+                                if n in self.other and n != t.id:
+                                    self.other[n] += 1
+                    elif not self.helper_call(value, guards):
                         self.count_other(value)
+                elif (isinstance(t, ast.Subscript) and isinstance(t.value, ast.Name) and t.value.id == "kwargs"
+                      and isinstance(t.slice, ast.Constant) and isinstance(t.slice.value, str)
+                      and isinstance(value, ast.Name) and value.id in self.helpers):
+                    self.helpers[value.id].append(("kwargs", t.slice.value, list(guards)))     # kwargs['fo:color'] = color
                 elif isinstance(t, ast.Tuple) and all(isinstance(e, ast.Name) for e in t.elts):
                     for e in t.elts:
                         if e.id in self.other:
@@ -228,7 +267,7 @@ class InitScan:
                             self.forwards[v.id] = k.value
                         else:
                             self.count_other(v)
-                else:
+                elif not self.helper_call(c, guards):
                     self.count_other(s)
             elif isinstance(s, (ast.Raise, ast.Return, ast.AugAssign, ast.Pass)):
                 self.count_other(s)
@@ -329,7 +368,7 @@ def classify(cls, owner, fn, gprops):
                 tainted = True
             elif defaulted != "GTruthy":
                 defaulted = "GNotNone" if g == "GIsNone" else "GTruthy"
-        pos_stores, const_stores, neg_stores, other_stores = [], [], [], 0
+        pos_stores, const_stores, neg_stores, other_stores, indexed = [], [], [], 0, []
         for (target, value, guards) in sc.stores:
             mentioned = arg in names_loaded(value)
             g, other = guard_for(arg, guards)
@@ -337,6 +376,10 @@ def classify(cls, owner, fn, gprops):
             if not mentioned and not guard_mentions:
                 continue
             kind, extra = rhs_kind(arg, value)
+            if (mentioned and isinstance(value, ast.Subscript) and isinstance(value.value, ast.Name) and value.value.id == arg
+                    and isinstance(value.slice, ast.Constant) and type(value.slice.value) is int and g == "GTruthy" and not other):
+                indexed.append((value.slice.value, target))        # self.x1 = p1[0]
+                continue
             if not mentioned:
                 if kind == "Const" and g == "GTruthy" and not other:
                     const_stores.append((target, extra))
@@ -344,7 +387,7 @@ def classify(cls, owner, fn, gprops):
                     neg_stores.append(target)
                 # a store of something else under a guard on arg: the guard use is already counted in tests
                 continue
-            if kind in ("CId", "CConv", "COrDefault") and g in POS_GUARDS:
+            if kind in ("CId", "CConv", "COrDefault") and positive(g):
                 if defaulted and (g == "GNone" or (g == "GNotNone" and defaulted == "GTruthy")):
                     g = defaulted
                 pos_stores.append((target, g, kind, extra, other))
@@ -380,7 +423,8 @@ def classify(cls, owner, fn, gprops):
             entry.update(kind="StoredConst", prop=target, guard="GTruthy", conv="Const", convf=c)
             if target in gprops:
                 entry.update(attr=gprops[target][0], family=gprops[target][1])
-        elif nother == 0 and not tainted and (sc.tests[arg] == 0 or (has_same_named_property and "bool" not in ann)):
+        elif (nother == 0 and not tainted and not sc.helpers.get(arg) and not indexed
+              and (sc.tests[arg] == 0 or (has_same_named_property and "bool" not in ann))):
             # (a bool argument that is only tested is a mode switch, e.g. VarSet.display, Header.formatted)
             why = "never read" if sc.tests[arg] == 0 and not neg_stores else \
                   "only tested%s; the class has a property of that name" % (
@@ -389,6 +433,31 @@ def classify(cls, owner, fn, gprops):
         else:
             entry.update(kind="Unrecognised",
                          note=("reassigned before use; " if tainted else "") + "used in %d other expression(s), %d test(s)" % (nother, sc.tests[arg]))
+        # `text = self.set_value_and_type(value=value, text=text)`: replaced by the result of a method it was handed to
+        def _hands_over(value):
+            return (isinstance(value, ast.Call) and isinstance(value.func, ast.Attribute) and isinstance(value.func.value, ast.Name)
+                    and value.func.value.id == "self"
+                    and any(isinstance(v, ast.Name) and v.id == arg for v in list(value.args) + [k.value for k in value.keywords]))
+        taint_by_helper = tainted and all(_hands_over(v) for (n, v, _g) in sc.reassign if n == arg)
+        if (entry["kind"] == "Unrecognised" and nother == 0 and not const_stores
+                and ((not tainted and not pos_stores) or taint_by_helper)):
+            hu = sc.helpers.get(arg, [])
+            if indexed and not hu:
+                entry.update(kind="StoredIndexed", prop=",".join(t for _, t in sorted(indexed)), guard="GTruthy",
+                             note="self.<p> = %s[i] for i in %s" % (arg, sorted(i for i, _ in indexed)))
+            elif hu and not indexed:
+                m, k, gs = hu[0]
+                _g, oth = guard_for(arg, gs)
+                entry.update(kind="ViaHelper", prop=m, convf=k, guard=_g,
+                             note="handed to %s(%s)%s%s" % (("self." + m) if m != "kwargs" else "kwargs[...] -> set_properties", k,
+                                                           " under a condition on something else" if oth else "",
+                                                           "; also " + ", ".join("%s(%s)" % (a, b) for a, b, _ in hu[1:]) if len(hu) > 1 else ""))
+                entry["cond_other"] = bool(oth)
+                names = set()
+                for (t_, pol_) in gs:
+                    if t_ != "loop":
+                        names |= {n for n in names_loaded(t_) if n in sc.other and n != arg}
+                entry["cond_names"] = sorted(names)
         if (arg in sc.forwards and not pos_stores and not const_stores and not neg_stores and nother == 0
                 and sc.tests[arg] == 0 and not tainted):
             # handed unchanged to the parent constructor: the parent's entry for that keyword applies
@@ -402,6 +471,38 @@ def classify(cls, owner, fn, gprops):
                 entry["note"] = ("forwarded as %s= to %s.__init__; " % (sc.forwards[arg], pe["_owner"]) + pe.get("note", "")).strip()
         res.append(entry)
     return res, pinned
+
+
+# ------------------------------------------------------------------ 2b. where wrappers are made
+
+def wrap_sites():
+    """every place of the package that turns an lxml node into a wrapper object:
+       calls  <receiver>.from_tag(...) / <receiver>.from_tag_for_clone(...)   -> (module, function, receiver, factory)
+       calls  <anything>(tag_or_elem=...) that are not such a call            -> (module, function, "<callee>", "direct")
+    The model (Registry.v, access paths) assumes the receiver is the base class Element everywhere except in Element.clone
+    (self) -- C12_wrap_sites_as_modelled checks this table on every run."""
+    out = []
+    for f in sorted((SRC / "odfdo").rglob("*.py")):
+        if "scripts" in f.parts:
+            continue
+        tree = ast.parse(f.read_text())
+        mod = f.relative_to(SRC / "odfdo").as_posix()
+
+        def visit(node, fn):
+            for ch in ast.iter_child_nodes(node):
+                name = fn
+                if isinstance(ch, (ast.FunctionDef, ast.AsyncFunctionDef)):
+                    name = ch.name
+                if isinstance(ch, ast.Call):
+                    if isinstance(ch.func, ast.Attribute) and ch.func.attr in ("from_tag", "from_tag_for_clone"):
+                        out.append((mod, fn, ast.unparse(ch.func.value), ch.func.attr))
+                    elif isinstance(ch.func, ast.Name) and ch.func.id in ("from_tag", "from_tag_for_clone"):
+                        out.append((mod, fn, "", ch.func.id))
+                    elif any(k.arg == "tag_or_elem" for k in ch.keywords):
+                        out.append((mod, fn, ast.unparse(ch.func), "direct"))
+                visit(ch, name)
+        visit(tree, "<module>")
+    return out
 
 
 # ------------------------------------------------------------------ 3. emit
@@ -481,7 +582,8 @@ def main():
             gen = "(Some (%s, %s))" % (q(e["attr"]), q(e["family"])) if e["attr"] else "None"
             if k == "Stored":
                 conv = "(CConv %s)" % q(e["convf"]) if e["conv"] == "CConv" else e["conv"]
-                kk = "(Stored %s %s %s %s)" % (q(e["prop"]), e["guard"], conv, gen)
+                gd = "(GGe %s)" % e["guard"][4:] if e["guard"].startswith("GGe:") else e["guard"]
+                kk = "(Stored %s %s %s %s)" % (q(e["prop"]), gd, conv, gen)
             elif k == "StoredConst":
                 if e["convf"] not in ("True", "False"):
                     kk = "Unrecognised"
@@ -492,6 +594,10 @@ def main():
                 kk = "(StoredCond %s)" % q(e["prop"])
             elif k == "NonProp":
                 kk = "(NonProp %s)" % q(e["prop"])
+            elif k == "ViaHelper":
+                kk = "(ViaHelper %s %s)" % (q(e["prop"]), q(e["convf"]))
+            elif k == "StoredIndexed":
+                kk = "(StoredIndexed [%s])" % "; ".join(q(x) for x in e["prop"].split(","))
             elif k == "Dropped":
                 kk = "Dropped"
             else:
@@ -511,7 +617,12 @@ def main():
            "Definition propdefs : list (string * (string * (string * string))) := [\n" + ";\n".join(prop_lines) + "\n].", "",
            "(* the _properties tuples as declared in the class body itself (declaration order; a later duplicate name overrides) *)",
            "Definition declared_propdefs : list (string * (string * (string * string))) := [\n" + ";\n".join(decl_lines) + "\n].", ""]
-    ct = [hdr, "From Coq Require Import String List. Import ListNotations. Open Scope string_scope.",
+    sites = wrap_sites()
+    info["wrap_sites"] = sites
+    reg += ["(* every place that makes a wrapper from an lxml node: (module, (enclosing function, (receiver / callee, factory))) *)",
+            "Definition wrap_sites : list (string * (string * (string * string))) := [\n"
+            + ";\n".join("  (%s, (%s, (%s, %s)))" % (q(a), q(b), q(c), q(d)) for a, b, c, d in sites) + "\n].", ""]
+    ct = [hdr, "From Coq Require Import String List ZArith. Import ListNotations. Open Scope string_scope.",
           "Require Import Attr.", "",
           "Definition ctors : list centry := [\n" + ";\n".join(ctor_lines) + "\n].", ""]
     new_reg, new_ct = "\n".join(reg), "\n".join(ct)
